@@ -6,7 +6,17 @@ Case line (see lean/TraitsVerif/Driver/Obs.lean):
     obs|<n>|<child defaults>|op;op;...
 
 Pool objects are 0..n-1, `99` is None, containers get the identities written in
-the ops (>= 100).  After every op every pool object is probed (every Int trait is
+the ops (>= 100).  A child-default entry `<ref>[~class]` prefixed with `S` makes that pool object the
+CONSTANT default of the class trait `shared = Any(<it>)` of every pool object (one object shared by
+all instances, not made by a factory; default_value_type constant).
+
+Dict keys: `byname` is Dict(CStr, Instance): key k of the case line is the entry "<k>"; the mutators
+whose name ends in `u` pass it UN-CAST (the int k), the others as the str.
+  ds/dsu  d[k] = x            du/duu  d.update({k: x})      dio/diou  d |= {k: x}
+  dsd/dsdu d.setdefault(k, x) dd  del d[k]   dp  d.pop(k)   dpd  d.pop(k, None)   dpi  d.popitem()
+Sets:  sa add  sr discard  sro remove  sp pop (singleton sets only)  su update({x})  sio |= {x}
+  sis -= {x}   sia &= (s - {x})   six ^= {x}   sdu difference_update({x})   sxu symmetric_difference_update({x})
+`del o f`: `del obj.f` with the trait's notifier list in existence (as after any earlier registration on it).  After every op every pool object is probed (every Int trait is
 read, then incremented); the output per op is
 
     <ok|err Exc> D{deliveries during the op} P{deliveries of the probe} N{notifier populations}
@@ -21,7 +31,7 @@ import zlib
 from .seqlib import exc_name
 
 NAMES = ["value", "mate", "child", "kids", "byname", "group", "trait_added", "trait_modified",
-         "extra", "xchild", "items", "nosuch", "ichild", "nchild", "tkids", "l2", "adhoc"]
+         "extra", "xchild", "items", "nosuch", "ichild", "nchild", "tkids", "l2", "adhoc", "shared"]
 NONE_ID = 99
 INT_FIELDS = ("value", "extra")
 
@@ -38,14 +48,15 @@ _NODE = []
 def node_class():
     if _NODE:
         return _NODE[0]
-    from traits.api import HasTraits, Int, Instance, List, Dict, Set, Str, ComparisonMode
+    from traits.api import HasTraits, Int, Instance, List, Dict, Set, CStr, ComparisonMode
 
     class Node(HasTraits):
         value = Int()
         mate = Instance(HasTraits, tag=True)
         child = Instance(HasTraits)
         kids = List(Instance(HasTraits))
-        byname = Dict(Str, Instance(HasTraits))
+        # casting keys: 1 and "1" name the same entry
+        byname = Dict(CStr, Instance(HasTraits))
         group = Set(Instance(HasTraits))
         ichild = Instance(HasTraits, comparison_mode=ComparisonMode.identity)
         nchild = Instance(HasTraits, comparison_mode=ComparisonMode.none)
@@ -244,7 +255,7 @@ def base(hid):
 
 
 class World:
-    def __init__(self, n, dflts, classes=None, fresh_class=False, variant=0):
+    def __init__(self, n, dflts, classes=None, fresh_class=False, variant=0, shared=None):
         _INDEX.clear()
         _DEFAULT.clear()
         _EQ.clear()
@@ -254,8 +265,15 @@ class World:
         if fresh_class:
             # an ad-hoc attribute defines a trait on the concrete CLASS: one class per case
             Node = type("NodeX", (Node,), {})
+        if shared is not None:
+            # a class of its own whose `shared` trait has a pool object as its constant default
+            Node = type("NodeS", (Node,), {})
         self.n = n
         self.pool = [Node() for _ in range(n)]
+        self.shared = shared
+        if shared is not None:
+            from traits.api import Any
+            Node.add_class_trait("shared", Any(self.pool[shared]))
         self.objs = {}          # identity -> real object (pool objects and containers, strong)
         self.ids = {}           # id(real object) -> identity
         for i, o in enumerate(self.pool):
@@ -328,7 +346,7 @@ class World:
         return "[" + ",".join(str(self.ident(x)) for x in xs) + "]"
 
     def show_kvs(self, d):
-        return "[" + ",".join("%d:%d" % (int(k[1:]), self.ident(v)) for k, v in d.items()) + "]"
+        return "[" + ",".join("%d:%d" % (int(k), self.ident(v)) for k, v in d.items()) + "]"
 
     def show_event(self, hid, ev):
         from traits.observation.events import (TraitChangeEvent, ListChangeEvent, DictChangeEvent,
@@ -523,6 +541,16 @@ def parse_ref(s):
     return None if s == "N" else int(s)
 
 
+def dkey(k):
+    """The (validated) dict key of entry k."""
+    return "%d" % int(k)
+
+
+DICT_SET_OPS = ("ds", "dsu", "du", "duu", "dio", "diou", "dsd", "dsdu")
+DICT_OPS = DICT_SET_OPS + ("dd", "dp", "dpd", "dpi", "dc")
+SET_OPS = ("sa", "sr", "sc", "sro", "sp", "su", "sio", "sis", "sia", "six", "sdu", "sxu")
+
+
 def parse_ids(s):
     s = s.strip()[1:-1].strip()
     return [int(x) for x in s.split(",")] if s else []
@@ -555,6 +583,7 @@ SIG_F10 = "stale-hook:mutated-link-reachable-through-itself"
 SIG_F14 = "stale-hook:default-evaluated-silently-on-first-assignment"
 SIG_ITEMS = "stray-notifier:items-trait-hooked-by-trait_added"
 SIG_ADHOC = "unhooked-trait:ad-hoc-attribute-defined-through-another-instance"
+SIG_DEL = "stale-hook:default-rematerialised-after-del"
 SIG_F4 = "registration-not-rolled-back:completed-sibling-subtree"
 SIG_F4_TOP = "registration-not-rolled-back:completed-sibling-graph"
 SIG_F4_RM = "removal-not-rolled-back:completed-sibling-subtree"
@@ -566,10 +595,13 @@ class Runner:
     def __init__(self, case):
         _, n, dflts, ops = case.lstrip("#").split("|")
         ents = [x.strip() for x in dflts.split(",")]
+        shared = [i for i, e in enumerate(ents) if e.startswith("S")]
+        ents = [e.lstrip("S") for e in ents]
         classes = [int(e.split("~")[1]) if "~" in e else i for i, e in enumerate(ents)]
         self.w = World(int(n), [parse_ref(e.split("~")[0]) for e in ents], classes,
                        fresh_class=any(o.strip().startswith("adhoc ") for o in ops.split(";")),
-                       variant=node_variant(case.lstrip("#")))
+                       variant=node_variant(case.lstrip("#")), shared=shared[0] if shared else None)
+        self.del_remat = False       # `del obj.trait` on a hooked trait re-materialised the default
         self.known_cause = None      # exact signature of a recorded finding this history ran into
         self.eq_case = len(set(classes)) < len(classes)
         self.ops = [o.strip() for o in ops.split(";") if o.strip()]
@@ -587,11 +619,19 @@ class Runner:
             self.tags.add("falsy-objects:" + ("bool" if self.w.variant == 1 else "len"))
 
     # ------------------------------------------------------------------ ops
-    @staticmethod
-    def default_of(o, name):
+    def obj_default(self, o, name):
+        """The EXISTING object the default of o.name is (dynamic default of child / mate, constant
+        default of shared), or None."""
         if name in ("child", "mate"):
             r = _DEFAULT.get(id(o))
             return None if r is None else r()
+        if name == "shared" and self.w.shared is not None:
+            return self.w.pool[self.w.shared]
+        return None
+
+    def default_of(self, o, name):
+        if name in ("child", "mate", "shared"):
+            return self.obj_default(o, name)
         return {"value": 0, "extra": 0, "kids": [], "tkids": [], "l2": [], "byname": {}, "group": set()}.get(name)
 
     def container(self, ident, cls):
@@ -612,7 +652,7 @@ class Runner:
         target = None
         olds, news = [], []
         try:
-            if k in ("set", "seti", "setl", "setd", "sets", "get"):
+            if k in ("set", "seti", "setl", "setd", "sets", "get", "del"):
                 o = w.pool[int(opw[1])]
                 name = opw[2]
                 if name not in o.traits():
@@ -621,10 +661,12 @@ class Runner:
                 cur = o.__dict__.get(name)
                 if name in o.__dict__:
                     olds = [cur] if cur is not None else []
-                elif name in ("child", "mate") and _DEFAULT.get(id(o)) is not None:
-                    olds = [_DEFAULT[id(o)]()] if k != "get" else []
+                    if k == "del" and self.obj_default(o, name) is not None:
+                        news = [self.obj_default(o, name)]
+                elif self.obj_default(o, name) is not None:
+                    olds = [self.obj_default(o, name)] if k not in ("get", "del") else []
                     if k == "get":
-                        news = [_DEFAULT[id(o)]()]
+                        news = [self.obj_default(o, name)]
                 if k == "set" and opw[3] != "N":
                     news = [w.real(int(opw[3]))]
             elif k in ("la", "li", "ld", "ls", "lc", "le", "lsl", "lst"):
@@ -657,11 +699,11 @@ class Runner:
                     return None
                 target = w.obs_key(c)
                 if k == "ds":
-                    key = "k%d" % int(opw[2])
+                    key = dkey(opw[2])
                     olds = [c[key]] if key in c else []
                     news = [w.real(int(opw[3]))]
                 elif k == "dd":
-                    key = "k%d" % int(opw[2])
+                    key = dkey(opw[2])
                     olds = [c[key]] if key in c else []
                 else:
                     olds = list(c.values())
@@ -691,6 +733,37 @@ class Runner:
                 "any_old": bool(olds), "any_new": bool(news)}
         self.check_selfreach(info)
         return info
+
+    def canon_op(self, p):
+        """The same mutation written with the basic mutators (ds / dd / sa / sr), for the
+        NoSelfReach test and the delivery oracle; None when it changes nothing / is skipped."""
+        w = self.w
+        k = p[0]
+        if k not in DICT_OPS + SET_OPS or k in ("ds", "dd", "dc", "sa", "sr", "sc"):
+            return p
+        c = w.objs.get(int(p[1]))
+        if k in DICT_OPS:
+            if not isinstance(c, dict):
+                return None
+            if k in DICT_SET_OPS:
+                if k == "dsd" and dkey(p[2]) in c:
+                    return None
+                return ["ds"] + p[1:]
+            if k == "dpi":
+                return ["dd", p[1], list(c)[-1]] if c else None
+            if k == "dpd" and dkey(p[2]) not in c:
+                return None
+            return ["dd"] + p[1:]
+        if not isinstance(c, set):
+            return None
+        if k == "sp":
+            return ["sr", p[1], str(w.ident(list(c)[0]))] if len(c) == 1 else None
+        x = w.real(int(p[2]))
+        if k in ("su", "sio"):
+            return ["sa"] + p[1:]
+        if k in ("six", "sxu"):
+            return ["sr" if x in c else "sa"] + p[1:]
+        return ["sr"] + p[1:]
 
     def check_selfreach(self, info):
         """NoSelfReach fails when a maintained child graph, walked from an old or new
@@ -730,14 +803,14 @@ class Runner:
             elif k == "setl":
                 v = [w.real(i) for i in parse_ids(p[4])]
             elif k == "setd":
-                v = dict(("k%d" % a, w.real(b)) for a, b in parse_kvs(p[4]))
+                v = dict((dkey(a), w.real(b)) for a, b in parse_kvs(p[4]))
             else:
                 v = set(w.real(i) for i in parse_ids(p[4]))
             if k in ("setl", "setd", "sets"):
                 w.tmp_id = int(p[3]) + 1
             t = o._trait(name, 0)
             hooked = bool(t is not None and t._notifiers(False))
-            if was_unset and hooked and name in ("child", "mate") and _DEFAULT.get(id(o)) is not None:
+            if was_unset and hooked and self.obj_default(o, name) is not None:
                 # setattr_trait evaluates the default as the old value; its subtree is
                 # "removed" although it was never hooked through this link
                 self.shadow_default = True
@@ -757,6 +830,28 @@ class Runner:
                 raise Skip()
             try:
                 getattr(o, name)
+            finally:
+                new = o.__dict__.get(name)
+                if isinstance(new, (TraitList, TraitDict, TraitSet)) and id(new) not in w.ids:
+                    w.register(int(p[3]), new)
+            return
+        if k == "del":
+            o = w.pool[int(p[1])]
+            name = p[2]
+            if name not in o.traits() or name in INT_FIELDS:
+                raise Skip()
+            # the notifier list of the trait exists (as after any earlier registration on it):
+            # delattr then takes the notifying path whether or not a notifier is left
+            t = o._trait(name, 2)
+            t._notifiers(True)
+            if name in o.__dict__ and t._notifiers(False):
+                # setattr_trait (delete) reads the attribute back through getattr_trait, which
+                # announces the new default on its own, and then announces old -> default again
+                self.del_remat = True
+                self.shadow_default = True
+                self.tags.add("del-rematerialised")
+            try:
+                delattr(o, name)
             finally:
                 new = o.__dict__.get(name)
                 if isinstance(new, (TraitList, TraitDict, TraitSet)) and id(new) not in w.ids:
@@ -804,23 +899,66 @@ class Runner:
             else:
                 c.extend([w.real(i) for i in parse_ids(p[2])])
             return
-        if k in ("ds", "dd", "dc"):
+        if k in DICT_OPS:
+            # every mutator of TraitDict, in place on the object (through the local name `c`);
+            # a name ending in `u` passes the key un-cast (int k for the entry "<k>")
             c = self.container(int(p[1]), TraitDict)
-            if k == "ds":
-                c["k%d" % int(p[2])] = w.real(int(p[3]))
-            elif k == "dd":
-                if "k%d" % int(p[2]) not in c:
+            if k in DICT_SET_OPS:
+                key = int(p[2]) if k.endswith("u") and k != "du" else dkey(p[2])
+                x = w.real(int(p[3]))
+                if k in ("ds", "dsu"):
+                    c[key] = x
+                elif k in ("du", "duu"):
+                    c.update({key: x})
+                elif k in ("dio", "diou"):
+                    c |= {key: x}
+                else:
+                    c.setdefault(key, x)
+            elif k in ("dd", "dp"):
+                if dkey(p[2]) not in c:
                     raise Skip()
-                del c["k%d" % int(p[2])]
+                if k == "dd":
+                    del c[dkey(p[2])]
+                else:
+                    c.pop(dkey(p[2]))
+            elif k == "dpd":
+                c.pop(dkey(p[2]), None)
+            elif k == "dpi":
+                if not c:
+                    raise Skip()
+                c.popitem()
             else:
                 c.clear()
             return
-        if k in ("sa", "sr", "sc"):
+        if k in SET_OPS:
             c = self.container(int(p[1]), TraitSet)
+            x = w.real(int(p[2])) if k not in ("sc", "sp") else None
             if k == "sa":
-                c.add(w.real(int(p[2])))
+                c.add(x)
             elif k == "sr":
-                c.discard(w.real(int(p[2])))
+                c.discard(x)
+            elif k == "sro":
+                if x not in c:
+                    raise Skip()
+                c.remove(x)
+            elif k == "sp":
+                if len(c) != 1:          # which item pop() takes is only determined for a singleton
+                    raise Skip()
+                c.pop()
+            elif k == "su":
+                c.update({x})
+            elif k == "sio":
+                c |= {x}
+            elif k == "sis":
+                c -= {x}
+            elif k == "sia":
+                c &= (set(c) - {x})
+            elif k == "six":
+                c ^= {x}
+            elif k == "sdu":
+                c.difference_update({x})
+            elif k == "sxu":
+                c.symmetric_difference_update({x})
             else:
                 c.clear()
             return
@@ -1085,6 +1223,8 @@ class Runner:
             sig = self.known_cause
         elif self.selfreach:
             sig = SIG_F10
+        elif self.del_remat:
+            sig = SIG_DEL
         elif self.shadow_default:
             sig = SIG_F14
         else:
@@ -1132,9 +1272,9 @@ class Runner:
             if k[0] == ob and k[1] == "u" and n > 0 and base(k[2]) not in self.w.dead:
                 want[base(k[2])] += 1
         got = collections.Counter(h for h, _ in evs)
-        p = op.split()
+        p = self.cur_canon or op.split()
         changed = True
-        if p[0] in ("set", "seti", "setl", "setd", "sets"):
+        if p[0] in ("set", "seti", "setl", "setd", "sets", "del"):
             changed = self.set_changed
         elif p[0] == "get":
             changed = False      # a default is not a change
@@ -1162,18 +1302,22 @@ class Runner:
             pre = None
             status = "ok"
             self.pre_spec = None
+            self.cur_canon = None
             try:
                 if self.cur_kind in ("obs", "unobs"):
                     status = self.observe(op)
                 else:
                     if self.check_reach() and self.ledger:
-                        pre = self.pre_mutation(op.split())
+                        self.cur_canon = self.canon_op(op.split())
+                        pre = self.pre_mutation(self.cur_canon) if self.cur_canon else None
                         if pre is not None:
                             self.pre_spec = w.spec_population(self.ledger)
                     self.set_changed = True
-                    if self.cur_kind in ("set", "seti", "setl", "setd", "sets"):
+                    was_set = False
+                    if self.cur_kind in ("set", "seti", "setl", "setd", "sets", "del"):
                         p = op.split()
                         o = w.pool[int(p[1])]
+                        was_set = p[2] in o.__dict__
                         if p[2] in o.traits() and p[2] in o.__dict__:
                             self.old_value = o.__dict__[p[2]]
                         else:
@@ -1189,7 +1333,7 @@ class Runner:
                         # a maintainer raised out of the mutation: the hooks are whatever
                         # it had done so far; outside the statement of C08
                         self.tainted = True
-                    if self.cur_kind in ("set", "seti", "setl", "setd", "sets"):
+                    if self.cur_kind in ("set", "seti", "setl", "setd", "sets", "del"):
                         p = op.split()
                         o = w.pool[int(p[1])]
                         new = o.__dict__.get(p[2])
@@ -1203,6 +1347,9 @@ class Runner:
                                 self.set_changed = not (self.old_value is new or self.old_value == new)
                         except Exception:
                             self.set_changed = True
+                        if self.cur_kind == "del":
+                            # deleting an absent attribute does nothing; else old -> default by identity
+                            self.set_changed = was_set and (mode == "none" or self.old_value is not new)
                     if pre is not None and self.check_reach():
                         # the old/new subtrees in the heap AFTER the mutation
                         self.check_selfreach(pre)
@@ -1372,6 +1519,7 @@ class Gen:
         self.added = set()       # (obj, name) added traits
         self.tagof = {}
         self.ops = []
+        self.shared = None       # pool object that is the constant default of `shared` (header `S`)
 
     def fresh(self):
         i = self.next_id
@@ -1417,10 +1565,21 @@ class Gen:
                 return "setd %d byname %d %s" % (o, c, show_kvs([(k, self.item()) for k in ks]))
             return "sets %d group %d %s" % (o, c, show_ids(sorted(set(i for i in self.items() if i != NONE_ID))))
         if x < 0.40:
-            f = r.choice(["kids", "tkids", "byname", "child", "mate", "value"] if self.no_sets else
-                         ["kids", "tkids", "byname", "group", "child", "mate", "value"])
+            fs = ["kids", "tkids", "byname", "child", "mate", "value"] if self.no_sets else \
+                ["kids", "tkids", "byname", "group", "child", "mate", "value"]
+            if self.shared is not None:
+                fs += ["shared", "shared", "shared"]
+            f = r.choice(fs)
             c = self.fresh()
             kind = {"kids": "l", "tkids": "l", "byname": "d", "group": "s"}.get(f)
+            if r.random() < 0.15 and f != "value":
+                # `del obj.f`: the attribute falls back to its default (a container default is a new one)
+                if f in ("child", "mate") and r.random() < 0.3:
+                    f = r.choice(["ichild", "nchild"])
+                if kind:
+                    self.conts[c] = kind
+                    self.attached[(o, f)] = c
+                return "del %d %s %d" % (o, f, c)
             if kind and (o, f) not in self.attached:
                 self.conts[c] = kind
                 self.attached[(o, f)] = c
@@ -1466,18 +1625,26 @@ class Gen:
             if y < 0.88:
                 return "lc %d" % c
             return "le %d %s" % (c, show_ids(self.items()))
-        if kind == "d":
+        return self.cont_op(c)
+
+    def cont_op(self, c):
+        """One mutation of dict / set `c` through any of its mutators (keys cast and un-cast)."""
+        r = self.rng
+        if self.conts[c] == "d":
             y = r.random()
             if y < 0.55:
-                return "ds %d %d %d" % (c, r.randint(0, 2), self.item())
+                k = r.choice(["ds", "ds", "ds", "dsu", "du", "duu", "dio", "diou", "dsd", "dsdu"])
+                return "%s %d %d %d" % (k, c, r.randint(0, 2), self.item())
             if y < 0.9:
-                return "dd %d %d" % (c, r.randint(0, 2))
+                k = r.choice(["dd", "dd", "dd", "dp", "dpd", "dpi"])
+                return "dpi %d" % c if k == "dpi" else "%s %d %d" % (k, c, r.randint(0, 2))
             return "dc %d" % c
         y = r.random()
-        if y < 0.55:
-            return "sa %d %d" % (c, self.obj())
+        if y < 0.5:
+            return "%s %d %d" % (r.choice(["sa", "sa", "sa", "su", "sio", "six", "sxu"]), c, self.obj())
         if y < 0.9:
-            return "sr %d %d" % (c, self.obj())
+            k = r.choice(["sr", "sr", "sr", "sro", "sis", "sia", "sdu", "six", "sxu", "sp"])
+            return "sp %d" % c if k == "sp" else "%s %d %d" % (k, c, self.obj())
         return "sc %d" % c
 
     def slice_op(self, c, l):
@@ -2052,6 +2219,82 @@ def history_filt(rng, maxops=12):
         elif x < 0.72:
             g.ops.append("set %d %s %s" % (o, rng.choice(["mate", "mate", "child"]),
                                            "N" if rng.random() < 0.15 else str(g.obj())))
+        else:
+            g.ops.append(g.mutation())
+    return "obs|%d|%s|" % (n, ",".join(dflts)) + ";".join(g.ops[:maxops + 2])
+
+
+def history_cont(rng, maxops=12):
+    """A dict (casting keys, cast and un-cast) or a set under an items observer, mutated in place
+    through every mutator; replaced values / removed items are bumped by the probe afterwards."""
+    g = Gen(rng)
+    n = g.n
+    root = 0
+    kind = rng.choice(["d", "d", "s"])
+    c = g.fresh()
+    g.conts[c] = kind
+    n1, n2 = rng.random() < 0.7, rng.random() < 0.8
+    leaf = rng.choice([t("value"), t("value"), seq(t("child"), t("value")), ("any", True)])
+    if kind == "d":
+        ks = rng.sample([0, 1, 2], rng.randint(1, 3))
+        g.ops.append("setd %d byname %d %s" % (root, c, show_kvs([(k, g.obj()) for k in ks])))
+        g.attached[(root, "byname")] = c
+        link = rng.choice([("di", n2, False), ("di", n2, False), dsl_items(n2)])
+        e = seq(t("byname", n1), link, leaf)
+    else:
+        g.ops.append("sets %d group %d %s" % (root, c, show_ids(sorted(set(g.obj() for _ in range(rng.randint(0, 2)))))))
+        g.attached[(root, "group")] = c
+        link = rng.choice([("si", n2, False), ("si", n2, False), dsl_items(n2)])
+        e = seq(t("group", n1), link, leaf)
+    if rng.random() < 0.3:
+        g.ops.append("set %d child %d" % (g.obj(), g.obj()))
+    es = " ".join(rpn_of(e))
+    g.ops.append("obs 0 %d %s" % (root, es))
+    if rng.random() < 0.2:
+        g.ops.append("obs 1 %d %s" % (root, es))
+    total = rng.randint(4, maxops)
+    while len(g.ops) < total:
+        g.ops.append(g.cont_op(c) if rng.random() < 0.85 else g.mutation())
+    return header(g, gen_dflts(rng, n)) + ";".join(g.ops[:maxops + 2])
+
+
+def history_const(rng, maxops=10):
+    """A CONSTANT default that is an observable object shared by every instance
+    (`shared = Any(<pool object>)`, header `S`): observed before it is read for the first time on one
+    or several owners, then read, replaced, deleted; the shared object is bumped by the probe."""
+    g = Gen(rng)
+    n = g.n
+    s = rng.randrange(n)
+    g.shared = s
+    dflts = gen_dflts(rng, n)
+    dflts[s] = "S" + dflts[s]
+    root = rng.randrange(n)
+    g.setup(rng.randint(0, 2))
+    n1 = rng.random() < 0.7
+    r = rng.random()
+    if r < 0.5:
+        e = seq(t("shared", n1), rng.choice([t("value"), t("value"), ("any", True), seq(t("shared"), t("value"))]))
+    elif r < 0.7:
+        e = seq(par(t("shared", n1), t("child", n1)), t("value"))
+    elif r < 0.85:
+        e = seq(("any", n1), t("value", True, True))
+    else:
+        e = seq(t("child", n1), t("shared", n1), t("value"))
+        g.ops.append("set %d child %d" % (root, g.obj()))
+    es = " ".join(rpn_of(e))
+    g.ops.append("obs 0 %d %s" % (root, es))
+    if rng.random() < 0.4:
+        g.ops.append("obs %d %d %s" % (rng.randrange(2), rng.randrange(n), es))
+    total = rng.randint(3, maxops)
+    while len(g.ops) < total:
+        x = rng.random()
+        o = root if rng.random() < 0.6 else g.obj()
+        if x < 0.4:
+            g.ops.append("get %d shared %d" % (o, g.fresh()))
+        elif x < 0.55:
+            g.ops.append("set %d shared %s" % (o, "N" if rng.random() < 0.15 else str(g.obj())))
+        elif x < 0.65:
+            g.ops.append("del %d shared %d" % (o, g.fresh()))
         else:
             g.ops.append(g.mutation())
     return "obs|%d|%s|" % (n, ",".join(dflts)) + ";".join(g.ops[:maxops + 2])
